@@ -10,7 +10,7 @@ NOT_APPLICABLE = {}
 CLAIMED.update({"C16": "DESIGN 4/C16", "C18": "DESIGN 4/C18"})
 EXTRA.update({
     "C16": {"technique": "symbolic execution + SMT: parametrised segments / symbolic triangles with all coordinates free; polygons: enumerated lattice polygons (bound on the polygon) x free real query point decided by z3 against a crossing-number oracle"},
-    "C18": {"technique": "symbolic execution + SMT: one operand free reals, the other from an enumerated lattice family (segments/lines both free where the solver decides it); soundness, completeness per edge and duplicate freedom per path"},
+    "C18": {"technique": "symbolic execution + SMT: one operand free reals, the other from an enumerated lattice family (segments/lines both free where the solver decides it); soundness, completeness per edge and duplicate freedom per path; 3-D polygon x segment with a free-height, free-weight end point"},
 })
 CLAIMED.update({"C03": "DESIGN 4/C03"})
 CLAIMED.update({"C04": "DESIGN 4/C04"})
